@@ -160,7 +160,17 @@ func judgeB(k *kindSpec, c CaseB, a *attemptB) {
 		return
 	}
 	mk := func(class, why string) {
-		a.Verdicts = append(a.Verdicts, verdict{fmt.Sprintf("C11/status/completed/%s/%s/attempt-%d", c.Kind, class, a.Attempt),
+		// the attempt is part of the signature only where it distinguishes defects: the pod-count classes differ between
+		// the first attempt and a retry (the blue-green Deployment finaliser judges an empty object on retries); the
+		// other classes are the same on every attempt
+		suffix := ""
+		if class == "not-all-updated" || class == "not-all-ready" {
+			suffix = "/first-attempt"
+			if a.Attempt > 1 {
+				suffix = "/on-retry"
+			}
+		}
+		a.Verdicts = append(a.Verdicts, verdict{fmt.Sprintf("C11/status/completed/%s/%s%s", c.Kind, class, suffix),
 			fmt.Sprintf("Finalize attempt %d of %s (%d replicas, batchPartition %s, finalizingPolicy %s) returned nil (executor: phase Completed) %s; workload status at this attempt: %s",
 				a.Attempt, c.Kind, c.Replicas, map[bool]string{true: "0", false: "nil"}[c.Partitioned], c.Policy, why, a.Status)})
 	}
